@@ -18,9 +18,9 @@ PID = "C05"
 
 # `.remove(x)` sites whose membership is a structural invariant (read and confirmed)
 INVARIANT_REMOVES = {
-    ("ampform.helicity.decay::get_sibling_state_id", "state_id"): "state_id is by construction one of the outgoing edges of "
+    ("ampform.helicity.decay::get_sibling_state_id", "state_id"): "state_id (the function's parameter) is by construction one of the outgoing edges of "
     "its own originating node (edge_ids = get_edge_ids_outgoing_from_node(parent node of state_id))",
-    ("ampform.kinematics.lorentz::__get_boost_chain_ids", "initial_state_id"): "list_decay_chain_ids walks up to the "
+    ("ampform.kinematics.lorentz::__get_boost_chain_ids", "next(iter(topology.incoming_edge_ids))"): "list_decay_chain_ids walks up to the "
     "incoming edge, so the initial state id is always the last element of the chain",
 }
 
@@ -115,7 +115,7 @@ def check_removes(ctx: Check, tree: Tree) -> None:
             if reason:
                 ctx.ok("R-GUARD", tree.loc(node), f"{what} - {reason}")
                 continue
-            inv = INVARIANT_REMOVES.get((q, arg))
+            inv = INVARIANT_REMOVES.get((q, unparse(Inliner(fn.node).expr(node.args[0]))))
             if inv:
                 ctx.ok("R-GUARD", tree.loc(node), f"{what} - invariant: {inv}")
                 continue
